@@ -88,6 +88,8 @@ def cells(tier, seed):
         mk(2, (3, 3), 1, 1, (2, 2), "int", (1, 1), (2, 1)),
         mk(2, (4, 4), 1, 2, (3, 3), "torus_str", (1, 1), None),
         mk(2, (4, 4), 0, 0, (3, 3), "torus", (2, 2), None),
+        mk(2, (3, 4), 0, 1, (3, 3), "torus", (4, 1), None),       # halo larger than the image side (several periods)
+        mk(2, (3, 3), 1, 0, (3, 3), "mixed", (5, 5), None),
         mk(2, (4, 4), 1, 1, (3, 3), "torus", (1, 1), None, obj=True, p=0, pp=1),
         mk(2, (3, 5), 1, 0, (3, 3), "same", (1, 1), None, obj=True, p=1, pp=1),
         mk(2, (4, 4), 0, 2, (3, 3), "torus", (1, 1), None, obj=True, p=1, pp=0),
@@ -97,6 +99,9 @@ def cells(tier, seed):
         mk(3, (3, 3, 3), 0, 1, (2, 2, 2), "valid", (1, 1, 1), None, gs="generators" if tier == "quick" else "all"),
         mk(3, (2, 2, 3), 0, 0, (3, 3, 3), "explicit", (1, 1, 1), (2, 2, 2), gs="generators" if tier == "quick" else "all"),
         mk(3, (3, 3, 3), 1, 0, (3, 3, 3), "torus", (1, 1, 1), None, obj=True, p=1, pp=1, gs="generators" if tier == "quick" else "all"),
+        mk(3, (2, 3, 4), 0, 1, (3, 3, 3), "mixed", (1, 1, 1), None, obj=True, p=1, pp=0, gs="generators" if tier == "quick" else "all"),
+        mk(3, (3, 2, 2), 1, 0, (3, 1, 3), "mixed", (1, 2, 1), None, obj=True, p=0, pp=1, gs="generators" if tier == "quick" else "all"),
+        mk(2, (3, 5), 1, 1, (3, 3), "mixed", (1, 2), None, obj=True, p=1, pp=1),
     ]
     if tier == "quick":
         shapes = [(4, 4), (3, 5)]
@@ -246,10 +251,10 @@ def run_cell(cfg, cx):
     torus_flag = is_torus
     meta = {}
 
-    def conv_obj(a, c, it):
+    def conv_obj(a, c, it, rd=rdil):
         img = geom.GeometricImage(a, p, D, it)
         flt = geom.GeometricImage(c, pp, D, it)
-        out = img.convolve_with(flt, 1, padding, ldil, rdil)
+        out = img.convolve_with(flt, 1, padding, ldil, rd)
         meta["parity"], meta["k"], meta["D"], meta["is_torus"] = out.parity, out.k, out.D, out.is_torus
         return out.data
 
@@ -264,21 +269,53 @@ def run_cell(cfg, cx):
         it_g = perm_axes(g, torus_flag)
         gA = S.Sym(refs.ref_action(D, A1.a, p, g))
         gC = S.Sym(refs.ref_action(D, C1.a, pp, g))
-        lhs = I.sym_call(lambda a, c: conv_obj(a, c, it_g), gA, gC)
+        rd_g = perm_axes(g, rdil)
+        lhs = I.sym_call(lambda a, c: conv_obj(a, c, it_g, rd_g), gA, gC)
         rhs = refs.ref_action(D, base.a, out_par, g)
 
-        def replay(vals, bvals, g=g, it_g=it_g):
+        def replay(vals, bvals, g=g, it_g=it_g, rd_g=rd_g):
             a = cx.conc(A1, vals)
             c = cx.conc(C1, vals)
-            l = conv_obj(jnp.asarray(refs.ref_action(D, a, p, g)), jnp.asarray(refs.ref_action(D, c, pp, g)), it_g)
+            l = conv_obj(jnp.asarray(refs.ref_action(D, a, p, g)), jnp.asarray(refs.ref_action(D, c, pp, g)), it_g, rd_g)
             o = geom.GeometricImage(jnp.asarray(a), p, D, torus_flag).convolve_with(
                 geom.GeometricImage(jnp.asarray(c), pp, D, torus_flag), 1, padding, ldil, rdil)
             r = refs.ref_action(D, np.asarray(o.data), o.parity, g)
             return cx.deviates(np.asarray(l), r)
         cx.equal(f"convolve_with equivariance[g={gkey(g)}]", lhs, rhs, replay=replay,
                  key=f"convolve_with:D={D}:shape={shape}:k={k},{kp}:p={p},{pp}:mode={cfg['mode']}:g={gkey(g)}")
+    # ---- the statement as a user writes it, through the library's OWN action (which has to carry the per-axis flags):
+    #      A.times_group_element(g).convolve_with(C.times_group_element(g)) == A.convolve_with(C).times_group_element(g)
+    if ldil is None and not isinstance(padding, tuple):
+        for g in gs:
+            gm = np.asarray(g)
+            rd_g = perm_axes(g, rdil)
+            m2 = {}
+
+            def lib_lhs(a, c, gm=gm, rd_g=rd_g):
+                img = geom.GeometricImage(a, p, D, torus_flag).times_group_element(gm)
+                flt = geom.GeometricImage(c, pp, D, torus_flag).times_group_element(gm)
+                out = img.convolve_with(flt, 1, padding, None, rd_g)
+                m2["l"] = (out.parity, out.k, tuple(out.is_torus))
+                return out.data
+
+            def lib_rhs(a, c, gm=gm):
+                out = geom.GeometricImage(a, p, D, torus_flag).convolve_with(geom.GeometricImage(c, pp, D, torus_flag), 1, padding, None, rdil)
+                out = out.times_group_element(gm)
+                m2["r"] = (out.parity, out.k, tuple(out.is_torus))
+                return out.data
+            l = I.sym_call(lib_lhs, A1, C1)
+            r = I.sym_call(lib_rhs, A1, C1)
+
+            def replay_lib(vals, bvals, lib_lhs=lib_lhs, lib_rhs=lib_rhs):
+                a, c = jnp.asarray(cx.conc(A1, vals)), jnp.asarray(cx.conc(C1, vals))
+                return cx.deviates(np.asarray(lib_lhs(a, c)), np.asarray(lib_rhs(a, c)))
+            lkey = f"convolve_with:lib-action:D={D}:shape={shape}:k={k},{kp}:p={p},{pp}:mode={cfg['mode']}:g={gkey(g)}"
+            cx.equal(f"(g.A)*(g.C) = g.(A*C) through the library's action[g={gkey(g)}]", l, r, replay=replay_lib, key=lkey)
+            cx.structural(f"type and flags of both sides agree[g={gkey(g)}]", m2["l"] == m2["r"] and m2["r"][2] == tuple(perm_axes(g, torus_flag)),
+                          f"(parity,k,is_torus): (g.A)*(g.C) -> {m2['l']}, g.(A*C) -> {m2['r']}, flags carried by g: {tuple(perm_axes(g, torus_flag))}",
+                          key="flags:" + lkey)
     g = [h for h in group_elements(D) if refs.det_signed_perm(h) == -1][0]
     gA = S.Sym(refs.ref_action(D, A1.a, p, g))
     gC = S.Sym(refs.ref_action(D, C1.a, pp, g))
-    lhs = I.sym_call(lambda a, c: conv_obj(a, c, perm_axes(g, torus_flag)), gA, gC)
+    lhs = I.sym_call(lambda a, c: conv_obj(a, c, perm_axes(g, torus_flag), perm_axes(g, rdil)), gA, gC)
     cx.canary("canary[wrong output parity]", lhs, refs.ref_action(D, base.a, out_par + 1, g))
